@@ -2,7 +2,9 @@
 import simcheck
 
 META = {
-    "level_text": ("Theorems (Lean 4): the blotter is an insertion-ordered list in which blotterAdd appends the order once to the primary list and "
+    "level_text": ("Client views: the order a simulated replace creates carries the client of the order it replaces and the blotter files it under that client "
+                   "(or under nobody when its placement is refused) - replacement_filed_under_the_client_of_the_replaced_order. "
+                   "Theorems (Lean 4): the blotter is an insertion-ordered list in which blotterAdd appends the order once to the primary list and "
                    "to the live list; every view (by strategy, strategy+selection, client, client+strategy, trade) is a filter of the primary list, "
                    "so each order is in exactly one bucket of each view, namely its own; status / matched-only filters are filters of the views; "
                    "blotterComplete removes exactly that order from the live list; the simulation loop removes an order from the live list only "
@@ -42,7 +44,19 @@ class Oracle(simcheck.BaseOracle):
                     before = run.replaced.get(id(o))
                     if before is not None and id(before) not in self.client_at:
                         before = None
-                    self.client_at[id(o)] = self.client_at[id(before)] if before is not None else o.client
+                    if before is None:
+                        self.client_at[id(o)] = o.client
+                    elif o.client is not self.client_at[id(before)] and before.client is not self.client_at[id(before)]:
+                        # known finding F17 at work: a refused placement through another client's transaction had overwritten the
+                        # replaced order's client attribute; the replace then went through THAT client and the replacement is filed
+                        # under it - the views and the cleared summaries follow the overwritten attribute from here on
+                        self.client_at[id(o)] = o.client
+                        self.add("replacement-follows-overwritten-client", "market %s: order %s replaces order %s, which was placed with client %d "
+                                 "and whose client attribute a refused placement had overwritten: the replacement belongs to client %d" % (
+                                     market.market_id, getattr(o, "_vidx", "?"), getattr(before, "_vidx", "?"),
+                                     run.clients.index(self.client_at[id(before)]), run.clients.index(o.client)))
+                    else:
+                        self.client_at[id(o)] = self.client_at[id(before)]
 
     def before_action(self, run, sidx, market, action, order, state):
         self._note_new(run, market)
